@@ -498,7 +498,7 @@ def build(spec, plain=False):
             if i not in kids:
                 product.append_child_component(m.components[i])
     else:
-        product = BaseProduct(list(m.components))
+        product = BaseProduct([m.components[i] for i in (spec.get("corder") or range(len(m.components)))])  # ("corder": the order inside product.component_list)
     for rs in [w_ for tm_ in spec.get("teams", []) for w_ in tm_.get("workers", [])] + [f_ for wp_ in spec.get("workplaces", []) for f_ in wp_.get("facilities", [])]:
         if rs.get("absence_late") is not None:
             late_cals[rs.get("id") or rs["name"]].extend(rs["absence_late"])  # the caller fills the list object he handed over
